@@ -274,6 +274,9 @@ def async_case(draw, driver=None):
             "tie": draw(st.booleans())}
     if drv == "tridonic":
         case["seq0"] = draw(st.sampled_from([1, 2, 128, 254, 255]))
+    if drv in ("luba", "sci") and draw(st.booleans()):
+        # several gateway frames handed over in one read
+        case["coalesce"] = draw(st.lists(st.booleans(), min_size=1, max_size=12))
     # stale answers left over from earlier traffic
     k = draw(st.integers(0, 2))
     inj = []
@@ -311,6 +314,8 @@ def sync_case(draw):
 
 def features(case):
     f = ["driver:" + case["driver"]]
+    if any(case.get("coalesce", [])):
+        f.append("serial-frames-coalesced-into-one-read")
     if "cmds" in case:
         if case.get("persistent"):
             f.append("daliserver:persistent-connection")
